@@ -160,7 +160,25 @@ class QueueGen:
             caps = [rng.choice([257, 513]), 4100, rng.choice([c for c in self.SCALE_CAPS if c not in (257, 513, 4100)])]
         else:
             caps = [self.SCALE_CAPS[i % len(self.SCALE_CAPS)] for i in range(24)]
-        return [self.scale_history(rng, cc) for cc in caps]
+        hs = [self.scale_history(rng, cc) for cc in caps]
+        if tier != "quick":
+            hs.append(self.giant_history(rng))
+        return hs
+
+    @staticmethod
+    def giant_history(rng):
+        """ROUND13 (seeded change C05-11): more than 131072 live elements (growth steps up to 262144 and 524288 of the inner
+        deque), `fill n=` = n x enqueue; FIFO order probed by peek / poll, the whole content by `it_sweep` (n x iter_next,
+        count + checksum, newest first) while the capacity is what each step produced; no `observe`."""
+        n = 140000 + rng.randrange(0, 3000)
+        cc = rng.choice([0, 5, 8, 1000, 4100])
+        ops = [f"new cap={cc} obs=sparse phys=quiet", f"fill n=65536 seed={rng.randrange(1, 1000)}", "peek", "enqueue 4242", "peek", "size",
+               f"fill n={n - 65537} seed={rng.randrange(1, 1000)}", "size", "peek", "it_new", "it_sweep n=65530"] + ["it_next"] * 8 + \
+              ["it_sweep n=65530"] + ["it_next"] * 8 + ["it_replace 777", "it_next", f"it_sweep n={n}", "it_next"]
+        ops += ["poll"] * 12 + ["peek", "enqueue 11", "enqueue 12", "size", "it_new", "it_sweep n=3", f"it_sweep n={n}", "it_next"]
+        ops += [f"fill n=125000 seed={rng.randrange(1, 1000)}", "size", "peek", "it_new", f"it_sweep n={n + 130000}"] + ["poll"] * 6 + \
+               ["peek", "size", "destroy"]
+        return ops
 
     def scale_history(self, rng, cc):
         q = Sim(cc)                  # items: iteration view, newest first
